@@ -18,17 +18,27 @@ gen_manifest() {
   # the zoo crates' sources are generated; cargo needs them to exist to load the workspace
   local k
   for k in 0 1 2 3 4 5 6 7; do
-    if [ ! -f "$ENGINE/zoo/z$k/src/lib.rs" ]; then
-      mkdir -p "$ENGINE/zoo/z$k/src"
-      echo 'pub fn register(_v: &mut Vec<zoort::Entry>) {}' > "$ENGINE/zoo/z$k/src/lib.rs"
-    fi
+    for z in z zs; do
+      if [ ! -f "$ENGINE/zoo/$z$k/src/lib.rs" ]; then
+        mkdir -p "$ENGINE/zoo/$z$k/src"
+        echo 'pub fn register(_v: &mut Vec<zoort::Entry>) {}' > "$ENGINE/zoo/$z$k/src/lib.rs"
+      fi
+    done
   done
   [ -f "$ENGINE/zoo/schemas.json" ] || echo '[]' > "$ENGINE/zoo/schemas.json"
 }
 
 # build_zoo: (re)generate the fixed zoo sources and build the zoo crates against $REPO
+# build_zoo seed <n>: additionally the seed-dependent modules (thorough tiers) in the crates zs0..zs7; a seeded
+# module that the current tree cannot compile is a C09 matter, not this check's: on a build failure the seeded part
+# is dropped again (with a note) so that the check still runs on the fixed zoo.
 build_zoo() {
   build_bin zoogen || return 1
+  if [ "${1:-fixed}" = seed ]; then
+    "$TARGET_DIR/debug/zoogen" "$ENGINE/zoo" seed "$2" > "$TARGET_DIR/zoogen.log" 2>&1 || { cat "$TARGET_DIR/zoogen.log" >&2; return 1; }
+    if build_bin zoo 2>"$TARGET_DIR/zoo-seeded-build.err"; then return 0; fi
+    echo "NOTE: the seeded zoo (seed $2) does not build on this tree; continuing with the fixed zoo (see $TARGET_DIR/zoo-seeded-build.err)"
+  fi
   "$TARGET_DIR/debug/zoogen" "$ENGINE/zoo" fixed > "$TARGET_DIR/zoogen.log" 2>&1 || { cat "$TARGET_DIR/zoogen.log" >&2; return 1; }
 }
 
